@@ -329,6 +329,13 @@ fn run(c: &mut Case) {
     c.add("items_replayed", p.items.len() as u64);
     let before_unknown = *c.counters.get("path_checks_under_unknown_size_master").unwrap_or(&0);
     if let Some(v) = check(c, &inp.spec, &inp.bytes, &p) {
+        if live && v.sig.starts_with("open-master-at-clean-end") {
+            // the live-stream parse switches end-of-stream closing on after the final None; what a reader makes of a setter
+            // called at that point is not pinned by any statement (it may stay fused, as C05's wording suggests), so
+            // masters left open at the end of such a parse are not judged — everything emitted is
+            c.count("vacuous_live_stream_left_masters_open");
+            return;
+        }
         c.violation(
             format!("C06/{}/{}", v.sig, inp.kind.split('/').next().unwrap_or("")),
             v.msg.clone(),
